@@ -232,7 +232,12 @@ def mon_refusal_inert(case):
         if not (es1[0].startswith(pre) and es2[0].startswith(pre)):
             continue
         a1, a2 = es1[0][len(pre):], es2[0][len(pre):]
-        if a1[:1] == "4" and a1 != a2:
+        # refusals in C02's sense: wrong / stale / unknown id (400 InvalidRequestID) and submissions outside
+        # Running (403). A first submission for the current id with a bad response-mode header is answered
+        # 400 InvalidFunctionResponseMode but is CONSUMED (the caller is sent Runtime.InvalidResponseModeHeader,
+        # the runtime has used up its one submission), and 413 likewise: not refusals, a repetition is the
+        # second submission and is rightly answered 403.
+        if (a1.startswith("400,InvalidRequestID") or a1.startswith("403")) and a1 != a2:
             target = cur if ws[2] == "cur" else ws[2]
             tag = ""
             if a1.startswith("400,InvalidRequestID") and a2.startswith("403") and target == cur:
